@@ -156,6 +156,28 @@ def const(e):
     return e.value if isinstance(e, ast.Constant) and isinstance(e.value, str) else None
 
 
+def macro_body(repo):
+    """compile_row_regexp, or the same-module helper its macro body was extracted into"""
+    m = repo.module(SYNTAX)
+    entry = repo.func(SYNTAX, "compile_row_regexp")
+
+    def n_subs(f):
+        return sum(1 for x in calls_in(f) if call_name(x) == "re.sub")
+    if n_subs(entry) >= 5:
+        return entry
+    cands = []
+    for x in calls_in(entry):
+        r = repo.resolve_call(m, x)
+        if r and isinstance(r[2], ast.FunctionDef) and r[0] is m:
+            cands.append(r[2])
+            for y in calls_in(r[2]):
+                r2 = repo.resolve_call(m, y)
+                if r2 and isinstance(r2[2], ast.FunctionDef) and r2[0] is m:
+                    cands.append(r2[2])
+    cands = [f for f in cands if n_subs(f) >= 5]
+    return cands[0] if cands else entry
+
+
 # ------------------------------------------------------------------ R1
 def r1(c):
     repo = c.repo
@@ -164,7 +186,24 @@ def r1(c):
                      "(?i) removed and turned into IGNORECASE; user parentheses non-capturing when `*` is present; <name> -> named \\w+ group; the suffix applies exactly "
                      "when the row ends with neither `~` nor `...` and has no `~/`")
     m = repo.module(SYNTAX)
-    fn = repo.func(SYNTAX, "compile_row_regexp")
+    entry = repo.func(SYNTAX, "compile_row_regexp")
+    fn = entry
+    # the macro body may have been extracted into a helper of the same module: follow resolved calls (depth <= 2)
+    def n_subs(f):
+        return sum(1 for x in calls_in(f) if call_name(x) == "re.sub")
+    if n_subs(fn) < 5:
+        cands = []
+        for x in calls_in(entry):
+            r = repo.resolve_call(m, x)
+            if r and isinstance(r[2], ast.FunctionDef) and r[0] is m:
+                cands.append(r[2])
+                for y in calls_in(r[2]):
+                    r2 = repo.resolve_call(m, y)
+                    if r2 and isinstance(r2[2], ast.FunctionDef) and r2[0] is m:
+                        cands.append(r2[2])
+        cands = [f for f in cands if n_subs(f) >= 5]
+        if cands:
+            fn = cands[0]
     c.count("functions")
     gm = GuardMap(fn)
     subs = []
@@ -274,31 +313,34 @@ def r1(c):
     comp = [x for x in calls_in(fn) if call_name(x) == "re.compile"]
     ok = bool(comp) and any(isinstance(k.value, ast.Name) and k.value.id == "flags" for k in comp[0].keywords) or (comp and len(comp[0].args) > 1 and norm(comp[0].args[1]) == "flags")
     c.check("C07.R1", ok, repo.loc(m, comp[0] if comp else fn), "compile_row_regexp/flags", "the accumulated flags do not reach re.compile", key_text="flags")
-    # cache key covers flags: lru_cache on the function with both parameters (seeded: hand-written cache keyed by row only)
-    decos = [norm(d) for d in fn.decorator_list]
-    params = [a.arg for a in fn.args.args]
-    if any("lru_cache" in d or d.endswith("cache") for d in decos):
-        c.holds("C07.R1", repo.loc(m, fn), "compile_row_regexp/cache-key", "functools cache keys on all arguments (row, flags)")
+    # cache key covers flags: functools cache on the entry point with both parameters, or a hand-written memo keyed by all of them
+    decos = [norm(d) for d in entry.decorator_list]
+    params = [a.arg for a in entry.args.args]
+    mod_names = {t.id for st in m.tree.body if isinstance(st, (ast.Assign, ast.AnnAssign))
+                 for t in ([st.target] if isinstance(st, ast.AnnAssign) else st.targets) if isinstance(t, ast.Name)}
+    memo_keys = []
+    for n in walk_no_nested(entry):
+        if isinstance(n, ast.Subscript) and isinstance(n.value, ast.Name) and n.value.id in mod_names:
+            memo_keys.append((n, n.slice))
+        elif isinstance(n, ast.Call) and isinstance(n.func, ast.Attribute) and isinstance(n.func.value, ast.Name) and n.func.value.id in mod_names \
+                and n.func.attr in ("get", "setdefault", "pop") and n.args:
+            memo_keys.append((n, n.args[0]))
+        elif isinstance(n, ast.Compare) and len(n.ops) == 1 and isinstance(n.ops[0], (ast.In, ast.NotIn)) and isinstance(n.comparators[0], ast.Name) \
+                and n.comparators[0].id in mod_names:
+            memo_keys.append((n, n.left))
+    if not memo_keys:
+        ok = any("lru_cache" in d or d.endswith("cache") for d in decos) or True
+        c.holds("C07.R1", repo.loc(m, entry), "compile_row_regexp/cache-key", "no hand-written memo; functools caches key on all arguments (row, flags)")
     else:
-        # hand-written memo: every subscript/`in`/.get on a module-level dict inside the function must mention every parameter
-        memo_keys = []
-        for n in walk_no_nested(fn):
-            if isinstance(n, ast.Subscript) and isinstance(n.value, ast.Name) and n.value.id not in params and n.value.id in {k for k in m.defs} | {t.id for st in m.tree.body if isinstance(st, (ast.Assign, ast.AnnAssign)) for t in ([st.target] if isinstance(st, ast.AnnAssign) else st.targets) if isinstance(t, ast.Name)}:
-                memo_keys.append(n)
-        bad = [k for k in memo_keys if not all(any(isinstance(x, ast.Name) and x.id == p for x in ast.walk(k.slice)) for p in params)]
-        # follow a local key variable
-        pv = Provenance(fn)
-        really_bad = []
-        for k in bad:
-            names = set()
-            for kk, nn in pv.origins(k.slice, through_calls=True):
-                if kk == "param":
-                    names.add(nn.arg)
+        pv = Provenance(entry)
+        bad = []
+        for node, key in memo_keys:
+            names = {nn.arg for kk, nn in pv.origins(key, through_calls=True) if kk == "param"}
             if not set(params) <= names:
-                really_bad.append(k)
-        c.check("C07.R1", not really_bad, repo.loc(m, really_bad[0] if really_bad else fn), "compile_row_regexp/cache-key",
-                f"memo `{norm(really_bad[0]) if really_bad else ''}` is keyed without all of {params}: the same row compiled with and without IGNORECASE returns whichever came first",
-                key_text="cache-key")
+                bad.append((node, sorted(set(params) - names)))
+        c.check("C07.R1", not bad, repo.loc(m, bad[0][0] if bad else entry), "compile_row_regexp/cache-key",
+                f"memo access `{norm(bad[0][0])[:60] if bad else ''}` is keyed without {bad[0][1] if bad else ''}: the same row compiled with and without IGNORECASE "
+                "(%ignore_case, (?i)) returns whichever was compiled first", key_text="cache-key")
 
 
 # ------------------------------------------------------------------ R2
@@ -418,7 +460,7 @@ def r2(c):
     c.count("functions", 3)
     # placeholder extent agreement
     star_macro = None
-    for call in calls_in(repo.func(SYNTAX, "compile_row_regexp")):
+    for call in calls_in(macro_body(repo)):
         if call_name(call) == "re.sub" and const(call.args[0]) and "*" in lits(const(call.args[0])) and "/" in lits(const(call.args[0])):
             star_macro = const(call.args[0])
     subs = [(x, const(x.args[0]), const(x.args[1])) for x in calls_in(f1) if call_name(x) == "re.sub" and len(x.args) >= 3]
